@@ -15,6 +15,7 @@ import (
 	"fmt"
 	"runtime"
 	"strings"
+	"sync/atomic"
 	"time"
 	"unsafe"
 )
@@ -47,9 +48,11 @@ const (
 	OpWGWait
 	OpPool
 	OpOnce
+	OpDrive // driver thread: run one other thread exclusively until it yields / blocks / finishes
+	OpQuery // driver thread: ask for the enabled transitions of another thread
 )
 
-var opNames = [...]string{"none", "start", "resume", "yield", "Lock", "RLock", "WLock", "WLockWait", "atomic", "chan", "close", "env", "choose", "join", "wgwait", "pool", "once"}
+var opNames = [...]string{"none", "start", "resume", "yield", "Lock", "RLock", "WLock", "WLockWait", "atomic", "chan", "close", "env", "choose", "join", "wgwait", "pool", "once", "drive", "query"}
 
 func (k OpKind) String() string { return opNames[k] }
 
@@ -78,6 +81,7 @@ type WGState struct {
 
 type caseReq struct {
 	send bool
+	ref  any     // the channel itself: keeps it alive so that its address is not reused within an execution
 	ch   uintptr // runtime hchan pointer, 0 for a nil channel
 	cap  int32
 	len  int32
@@ -95,6 +99,8 @@ type request struct {
 	nchoose    int
 	join       uint32 // bit mask of thread ids
 	label      string // only for traces
+	target     int    // OpDrive / OpQuery
+	pick       int    // OpDrive: index among the target's enabled transitions for its first step
 }
 
 // Thread is one controlled goroutine.
@@ -111,7 +117,82 @@ type Thread struct {
 	name     string
 	req      request
 	steps    int
+	// answers to OpQuery / OpDrive
+	qn      int
+	qtrans  [16]TransDesc
+	dstatus DriveStatus
 }
+
+// TransDesc describes one enabled transition of a thread (answer to Query).
+type TransDesc struct {
+	Kind    OpKind
+	Case    int
+	Partner int
+	Send    bool // OpChan: the case is a send
+	ChanSeq int  // OpChan: per-execution number of the channel (creation/first-use order)
+}
+
+type DriveStatus int
+
+const (
+	DriveYielded DriveStatus = iota
+	DriveBlocked
+	DriveFinished
+)
+
+func (d DriveStatus) String() string { return [...]string{"yielded", "blocked", "finished"}[d] }
+
+// Query returns the transitions thread tid could take right now (empty: blocked or finished).
+// Only for the sequential driver: the calling thread must be the only one not parked.
+//
+//go:norace
+func Query(tid int) []TransDesc {
+	t := cur()
+	if t == nil {
+		panic("vsched.Query outside the scheduler")
+	}
+	t.req.kind = OpQuery
+	t.req.target = tid
+	t.req.yield = false
+	t.req.ncase = 0
+	t.req.lock = nil
+	t.park()
+	out := make([]TransDesc, t.qn)
+	copy(out, t.qtrans[:t.qn])
+	return out
+}
+
+// Drive lets thread tid run exclusively: its first step takes its pick-th enabled transition,
+// later steps its first one, until it parks at a voluntary yield point, blocks or finishes.
+//
+//go:norace
+func Drive(tid, pick int) DriveStatus {
+	t := cur()
+	if t == nil {
+		panic("vsched.Drive outside the scheduler")
+	}
+	t.req.kind = OpDrive
+	t.req.target = tid
+	t.req.pick = pick
+	t.req.yield = false
+	t.req.ncase = 0
+	t.req.lock = nil
+	t.park()
+	return t.dstatus
+}
+
+//go:norace
+func answerQuery(t *Thread, descs []TransDesc) {
+	n := len(descs)
+	if n > len(t.qtrans) {
+		n = len(t.qtrans)
+	}
+	copy(t.qtrans[:n], descs[:n])
+	t.qn = n
+}
+
+//go:norace
+func answerDrive(t *Thread, st DriveStatus) { t.dstatus = st }
 
 func (t *Thread) ID() int { return t.id }
 
@@ -143,7 +224,15 @@ type Event struct {
 	A    int64
 	B    int64
 	C    int64
+	T    int64 // virtual clock (ns since vtime.Base) when logged
 }
+
+var clockNs int64
+
+// NoteClock is called by vtime whenever the virtual clock changes.
+//
+//go:norace
+func NoteClock(ns int64) { clockNs = ns }
 
 //go:norace
 func cur() *Thread {
@@ -426,15 +515,18 @@ func (t *Thread) finish(r any) {
 	if r != nil {
 		t.panicked = true
 		t.panicVal = fmt.Sprint(r)
-		if _, ok := r.(runtime.Error); ok || true {
-			buf := make([]byte, 4096)
-			n := runtime.Stack(buf, false)
-			t.panicVal += "\n" + trimStack(string(buf[:n]))
-		}
+		buf := make([]byte, 4096)
+		n := runtime.Stack(buf, false)
+		t.panicVal += "\n" + trimStack(string(buf[:n]))
 	}
 	t.g = 0
+	// a real release: makes the end of this thread visible to Join and to the next execution
+	// (and to nothing that runs code under test concurrently)
+	atomic.AddInt64(&finishedCounter, 1)
 	t.state = stFinished
 }
+
+var finishedCounter int64
 
 func trimStack(s string) string {
 	lines := strings.Split(s, "\n")
@@ -488,6 +580,7 @@ func Join(ids ...int) {
 	t.req.ncase = 0
 	t.req.lock = nil
 	t.park()
+	atomic.LoadInt64(&finishedCounter) // acquire: a real program joins its threads with real synchronisation
 }
 
 // ThreadInfo describes a thread at the moment of the call (for oracles run by the main thread).
@@ -524,7 +617,7 @@ func Log(kind uint8, a, b, c int64) {
 	if t := cur(); t != nil {
 		tid = int8(t.id)
 	}
-	events[nEvents] = Event{Step: stepNo, Tid: tid, Kind: kind, A: a, B: b, C: c}
+	events[nEvents] = Event{Step: stepNo, Tid: tid, Kind: kind, A: a, B: b, C: c, T: clockNs}
 	nEvents++
 }
 
@@ -552,6 +645,14 @@ func CurTid() int {
 // SetMapOrder installs the policy deciding how many alternative iteration orders the explorer
 // is offered for a map range over n keys (nil: only the canonical sorted order).
 func SetMapOrder(f func(n int) int) { mapOrder = f }
+
+// SetDaemonYield decides whether the blocking channel operations of daemon threads (the idle
+// loops of the applier and the policy goroutine) are voluntary switch points. The sequential
+// driver needs it (a driven daemon stops there); the preemptive DFS leaves it off so that
+// switching away from a daemon that could go on costs a preemption like anywhere else.
+func SetDaemonYield(b bool) { daemonYield = b }
+
+var daemonYield bool
 
 // SetPoolPoints makes sync.Pool.Get a schedule point.
 func SetPoolPoints(b bool) { poolPoints = b }
@@ -620,6 +721,7 @@ type Options struct {
 }
 
 type chanModel struct {
+	ref    any
 	cap    int32
 	qlen   int32
 	closed bool
@@ -634,6 +736,10 @@ type controller struct {
 	trace   []string
 	opts    Options
 	running int
+	// active Drive request
+	driving    bool
+	driver     int
+	driveFirst bool
 }
 
 var ctl controller
@@ -647,9 +753,13 @@ func resetGlobals() {
 	aborting = false
 	frozen = 0
 	nEvents = 0
+	clockNs = 0
 	stepNo = 0
 	epoch++
 	exemptAtomic = nil
+	shadowOn = false
+	shadow = nil
+	daemonYield = false
 	mapOrder = nil
 	poolPoints = false
 	active = true
@@ -685,13 +795,25 @@ func waitQuiescent() {
 		if spins&0xfffff == 0 {
 			if start.IsZero() {
 				start = time.Now()
-			} else if time.Since(start) > 20*time.Second {
+			} else if time.Since(start) > stuckAfter {
 				buf := make([]byte, 1<<16)
 				n := runtime.Stack(buf, true)
-				panic("vsched: a thread is stuck outside the scheduler (uncontrolled blocking operation?)\n" + string(buf[:n]))
+				panic("vsched: a thread is stuck outside the scheduler (uncontrolled blocking operation?)\n" + dumpThreads() + string(buf[:n]))
 			}
 		}
 	}
+}
+
+var stuckAfter = 20 * time.Second
+
+//go:norace
+func dumpThreads() string {
+	s := ""
+	for i := 0; i < nThreads; i++ {
+		t := &threads[i]
+		s += fmt.Sprintf("T%d %s state=%d grant=%d kind=%v g=%x\n", i, t.name, t.state, t.grant, t.req.kind, t.g)
+	}
+	return s
 }
 
 //go:norace
@@ -745,7 +867,7 @@ func numThreads() int { return nThreads }
 func (c *controller) chanOf(cr *caseReq) *chanModel {
 	m, ok := c.chans[cr.ch]
 	if !ok {
-		m = &chanModel{cap: cr.cap, qlen: cr.len, seq: len(c.chans) + 1}
+		m = &chanModel{ref: cr.ref, cap: cr.cap, qlen: cr.len, seq: len(c.chans) + 1}
 		c.chans[cr.ch] = m
 	}
 	return m
@@ -765,6 +887,7 @@ func Run(main func(), ch Chooser, opts Options) *Result {
 	c.trace = nil
 	c.opts = opts
 	c.running = 0
+	c.driving = false
 	res := &Result{}
 
 	t0 := allocThread("main", false)
@@ -800,6 +923,30 @@ func Run(main func(), ch Chooser, opts Options) *Result {
 			res.Outcome = Livelock
 			res.Detail = fmt.Sprintf("step horizon %d exceeded", opts.MaxSteps)
 			break
+		}
+		// forced moves: a thread start and the resumption after a rendezvous only run
+		// thread-local code up to the next real point; they commute with everything and
+		// are not decisions
+		forced := -1
+		for i := 0; i < n; i++ {
+			if states[i] == stParked && (reqs[i].kind == OpStart || reqs[i].kind == OpResume) {
+				forced = i
+				break
+			}
+		}
+		if forced >= 0 {
+			if opts.Trace {
+				c.trace = append(c.trace, fmt.Sprintf("     %s", c.describeReq(forced, &reqs[forced], 0)))
+			}
+			setStep(int32(step+1), forced)
+			if reqs[forced].kind == OpStart && forced == 0 {
+				c.running = 0
+			}
+			grantThread(&threads[forced], 0, false)
+			continue
+		}
+		if c.handleDriver(step, n, reqs[:n], states[:n]) {
+			continue
 		}
 		c.trans = c.trans[:0]
 		// canonical order: running thread first, then ascending ids
@@ -861,6 +1008,7 @@ func Run(main func(), ch Chooser, opts Options) *Result {
 	}
 	// tear down: release every parked thread with the abort flag
 	c.abortAll()
+	atomic.LoadInt64(&finishedCounter)
 	res.Points = append([]Point(nil), c.points...)
 	res.Trace = c.trace
 	res.Events = Events()
@@ -984,6 +1132,8 @@ func (c *controller) enabled(i int, r *request, reqs []request, states []int32) 
 		if r.hasDefault && !any {
 			c.trans = append(c.trans, Trans{Tid: i, Case: r.ncase, Partner: -1})
 		}
+	case OpDrive, OpQuery:
+		// served by handleDriver
 	default:
 		panic(fmt.Sprintf("vsched: thread %d parked with kind %v", i, r.kind))
 	}
@@ -1007,7 +1157,7 @@ func (c *controller) apply(tr Trans, reqs []request) {
 			m.qlen--
 		}
 	case OpClose:
-		cr := caseReq{ch: r.obj, cap: int32(r.cases[0].cap), len: int32(r.cases[0].len)}
+		cr := caseReq{ref: r.cases[0].ref, ch: r.obj, cap: int32(r.cases[0].cap), len: int32(r.cases[0].len)}
 		if r.obj != 0 {
 			c.chanOf(&cr).closed = true
 		}
@@ -1091,4 +1241,118 @@ func (c *controller) describeBlocked(reqs []request, states []int32) string {
 		}
 	}
 	return strings.Join(parts, "; ")
+}
+
+
+// involving appends the enabled transitions in which thread tid takes part (as initiator or
+// as the receiving partner of a rendezvous).
+func (c *controller) involving(tid int, reqs []request, states []int32) {
+	c.trans = c.trans[:0]
+	if states[tid] != stParked {
+		return
+	}
+	c.enabled(tid, &reqs[tid], reqs, states)
+	for j := range reqs {
+		if j == tid || states[j] != stParked || reqs[j].kind != OpChan {
+			continue
+		}
+		before := len(c.trans)
+		c.enabled(j, &reqs[j], reqs, states)
+		// keep only rendezvous with tid
+		k := before
+		for _, tr := range c.trans[before:] {
+			if tr.Partner == tid {
+				c.trans[k] = tr
+				k++
+			}
+		}
+		c.trans = c.trans[:k]
+	}
+}
+
+func (c *controller) descs(reqs []request) []TransDesc {
+	out := make([]TransDesc, 0, len(c.trans))
+	for _, tr := range c.trans {
+		r := &reqs[tr.Tid]
+		d := TransDesc{Kind: r.kind, Case: tr.Case, Partner: tr.Partner}
+		if r.kind == OpChan && tr.Case < r.ncase {
+			d.Send = r.cases[tr.Case].send
+			if m, ok := c.chans[r.cases[tr.Case].ch]; ok {
+				d.ChanSeq = m.seq
+			}
+		}
+		out = append(out, d)
+	}
+	return out
+}
+
+// handleDriver serves OpQuery / OpDrive requests of a sequential driver thread. It returns
+// true when it performed a step of its own.
+func (c *controller) handleDriver(step, n int, reqs []request, states []int32) bool {
+	if !c.driving {
+		d := -1
+		for i := 0; i < n; i++ {
+			if states[i] == stParked && (reqs[i].kind == OpQuery || reqs[i].kind == OpDrive) {
+				d = i
+				break
+			}
+		}
+		if d < 0 {
+			return false
+		}
+		tgt := reqs[d].target
+		if tgt < 0 || tgt >= n || tgt == d {
+			panic(fmt.Sprintf("vsched: bad drive/query target %d", tgt))
+		}
+		if reqs[d].kind == OpQuery {
+			c.involving(tgt, reqs, states)
+			answerQuery(&threads[d], c.descs(reqs))
+			grantThread(&threads[d], 0, false)
+			return true
+		}
+		c.driving, c.driver, c.driveFirst = true, d, true
+	}
+	d := c.driver
+	tgt := reqs[d].target
+	finish := func(st DriveStatus) bool {
+		c.driving = false
+		answerDrive(&threads[d], st)
+		c.running = d
+		setStep(int32(step+1), d)
+		grantThread(&threads[d], 0, false)
+		return true
+	}
+	if states[tgt] == stFinished {
+		return finish(DriveFinished)
+	}
+	if !c.driveFirst && reqs[tgt].yield {
+		return finish(DriveYielded)
+	}
+	c.involving(tgt, reqs, states)
+	if len(c.trans) == 0 {
+		return finish(DriveBlocked)
+	}
+	pick := 0
+	if c.driveFirst {
+		pick = reqs[d].pick
+		if pick < 0 || pick >= len(c.trans) {
+			panic(fmt.Sprintf("vsched: Drive pick %d out of range (%d enabled)", pick, len(c.trans)))
+		}
+	}
+	c.driveFirst = false
+	tr := c.trans[pick]
+	if c.opts.Trace {
+		p := Point{N: len(c.trans), Chosen: pick}
+		c.trace = append(c.trace, c.describe(step, tr, &reqs[tr.Tid], &p))
+	}
+	c.apply(tr, reqs)
+	setStep(int32(step+1), tr.Tid)
+	c.running = tr.Tid
+	if tr.Partner >= 0 {
+		grantThread(&threads[tr.Partner], tr.PCase, true)
+		grantThread(&threads[tr.Tid], tr.Case, true)
+	} else {
+		grantThread(&threads[tr.Tid], tr.Case, false)
+	}
+	return true
 }
